@@ -88,6 +88,23 @@ def run(ctx):
         if st.get("code:maxStreamUnitWrite") != lim - 14 - 255:
             ctx.notes.append("code's maxStreamUnitWrite=%s differs from the spec's Limit-14-255=%d (logged, the check used the code's value)"
                              % (st.get("code:maxStreamUnitWrite"), lim - 14 - 255))
+    # 5. thorough only (a -race build costs 40-60 s): the concurrent first-use stage once more under the race detector.
+    #    A race report alone is not a violation of C04 - it is recorded as a note; wrong bytes are violations as above.
+    if not q:
+        try:
+            rr = lib.run_go(ctx, "multiplex", "TestVerifC04Concurrent", env={"VERIF_WIRE_LIMIT": limits[0], "VERIF_C04_ROUNDS": 1500},
+                            race=True, tag="concurrent_race", timeout=1500)
+            for v in rr.get("violations", []):
+                ctx.violations.append(v)
+            out = open(os.path.join(rr["_out_dir"], "go.out")).read()
+            nrace = out.count("WARNING: DATA RACE")
+            stats["race_run"] = {"data_race_reports": nrace, "encodes": rr["evaluations"]}
+            if nrace:
+                i = out.find("WARNING: DATA RACE")
+                ctx.notes.append("race detector: %d report(s) while fresh codecs encoded their first frames concurrently (note only): %s"
+                                 % (nrace, " | ".join(l.strip() for l in out[i:i + 1200].splitlines()[:12])))
+        except lib.Inconclusive as e:
+            ctx.notes.append("race-detector run of the concurrent stage not available: %s" % str(e)[:300])
     # join the model-checking runs
     r = lib.require_ok(f_scaled.result(), "FrameCodec Limit=%d" % scaled)
     ctx.log("model check Limit=%d (every length x every pad): %d distinct states" % (scaled, r.distinct))
@@ -104,8 +121,10 @@ def run(ctx):
                 "length class {1, small, Max-1, Max} x closing {0,1,2} x placement {in, out}) = %d; each is expanded to %s "
                 "payload lengths of its class, 3 padding draws each, stream id / sequence number rotating over "
                 "{0,4,5,2^32-1,2^32,2^64-1,random} on the case's side of the threshold, a fresh random key per 256 lengths; "
-                "distinct = (abstract case, payload length)" % (len(cases), "every" if not q else
-                                                              "all <= 300, all within 300 of the maximum and 500 random"),
+                "then, per method, %d fresh Obfuscators (every 16th inside a fresh Session) whose first frames are encoded "
+                "concurrently by 2..8 goroutines released by a barrier (both placements, lengths 1..Max), each message decoded by "
+                "deobfuscate and the reference codec; distinct = (abstract case, payload length) resp. (method, k, length, placement)" % (len(cases), "every" if not q else "all <= 300, all within 300 of the maximum and 500 random",
+                                                   6000 if q else 60000),
         "samples": samples,
         "traces_validated_against_impl": ev,
         "abstract_cases": len(cases),
